@@ -105,7 +105,7 @@ CONTROLS = [
     'S2|<verif_controls::SwallowErrorObserver<O> as Observer>::error',
     'S3|<verif_controls::NoCompleteObserver<O> as Observer>::complete',
     'S4|<verif_controls::CompleteInNext<O> as Observer>::next',
-    'S5|<verif_controls::ConstFinishedObserver<O> as Observer>::is_finished',
+    'S5|<verif_controls::AlwaysFinishedObserver<O> as Observer>::is_finished',
     'S6|src/verif_controls.rs field `stack`',
     'S7|<verif_controls::RingLast<O, Item> as Observer>::next',
     'S8|<verif_controls::OffByOneTake<O> as Observer>::next',
@@ -289,6 +289,10 @@ def s5(cx):
     from . import c16
     out = []
     for f in c16.e1(cx):
+        if not f.ok and f.msg.startswith(('answers only whether its own slot is empty', 'returns the constant false', 'empty-slot path')):
+            # answers false too often: no terminal is lost by that (the producer-retirement half is C16.E1)
+            out.append(Finding(ID, 'S5', f.key, True, 'never answers true for a live downstream (it under-reports finished: C16.E1)', f.loc))
+            continue
         out.append(Finding(ID, 'S5', f.key, f.ok, f.msg if f.ok else (f.msg + ' — a hot source (Subject) skips subscribers that report finished when it delivers its terminal, so the output never terminates'), f.loc, f.witness))
     return out
 
@@ -452,7 +456,7 @@ def s8(cx):
         kind, spec = ent
         seen.add(tag)
         fn = cx.method(im, 'next')
-        g = cx.graph(fn['key'])
+        g = cx.graph(fn['key'], snapshots=True)
         label = cx.label(fn)
         fields = roles.adt_fields(cx, tag)
         usizes = [f for f, t in fields if F.tystr(t) == 'usize']
